@@ -46,7 +46,12 @@ Theorem read_nil_agrees o data : nil_spec o data (read_nil o data).
 Proof.
   unfold nil_spec. destruct data as [|b r1].
   { cbn. exists EParse. reflexivity. }
-  unfold read_nil. read_cases o b r1 unit.
+  pose proof (@handle_mismatch_agrees unit o (m_ty (byte_meta b)) (b :: r1)) as HM.
+  unfold decode in *. cbn [length] in *. rewrite decode_ref_by in *.
+  unfold read_nil. unfold classify, byte_meta in *.
+  split_first_byte b; try lia.
+  all: cbn [orb N.ltb N.leb N.eqb Pos.eqb N.compare Pos.compare Pos.compare_cont negb m_ty vtype_eqb] in *.
+  all: resolve_b_tests b.
   all: finish_read2 HM.
 Qed.
 
